@@ -111,6 +111,8 @@ def run(an: Analysis, rep):
     rep.rule("R06.4", "index assignment without override depends on first use only", 3)
     from .common import purity
     rep.run(purity, an, rep, "R06.P", ["normalize", "to_code", "from_code"])
+    from .common import assert_guard_rule as _agrx
+    rep.run(_agrx, an, rep, "R06.G", ["normalize", "to_code", "from_code", "to_json", "from_json"])
     from .common import SharedRules as _SR6
     from . import c01 as _c01f, c08 as _c08e, c11 as _c11f
     from sa.analysis import VERSIONS as _V6
